@@ -16,6 +16,8 @@ pub mod hash_map {
     }
     impl<'a, K, V> OccupiedEntry<'a, K, V> {
         #[verifier::external_body]
+        pub fn key(&self) -> (r: &K) ensures *r == self.key { unimplemented!() }
+        #[verifier::external_body]
         pub fn get(&self) -> (r: &V) ensures old(self.map).view().contains_key(self.key) && *r == old(self.map).view()[self.key] { unimplemented!() }
         /// replaces the value, returning the old one
         #[verifier::external_body]
